@@ -119,3 +119,66 @@ def install(reg):
                             lemmas=[("S.ext_transitive", lambda c: S.ext_trans(c.sd, c.head(1).sd, c.old.sd))]),
         },
     ))
+
+
+# ====================================================================== expand_minimal_spaces.make_skip_node
+def install_skipnode(reg):
+    from .succession_diagram import _dummy_ho
+    NODEF_NOEXP = ("space", "skipped", "parent", "cand", "seeds", "sets", "ppn", "pbn", "pnfvs")
+    NODEF = ("space", "expanded", "skipped", "parent", "cand", "seeds", "sets", "ppn", "pbn", "pnfvs")
+    LS = M.LS
+    i_, x_, y_ = z3.Int("i"), z3.Int("x"), z3.Int("y")
+
+    def N(v):
+        return S.net(v)
+
+    def cleared(v, n):
+        return z3.And(v.cand[n] == M.OptLS.none().t, v.seeds[n] == M.OptLS.none().t, v.sets[n] == M.OptLV.none().t)
+
+    def others(v, o, n, l):
+        S0 = o.space[n]
+        return z3.And(
+            S.frame_nodes(v, o, except_ids=(n,), fields=NODEF_NOEXP + ("succsig",)),
+            z3.ForAll([i_], z3.Implies(z3.And(0 <= i_, i_ < o.K, i_ != n), z3.Implies(o.expanded[i_], v.expanded[i_]))),
+            z3.ForAll([i_], z3.Implies(z3.And(0 <= i_, i_ < v.K, i_ != n, v.expanded[i_], z3.Or(i_ >= o.K, z3.Not(o.expanded[i_]))),
+                                       z3.And(v.succsig[i_] == S.nosucc, T.MinTrapSet(N(o), S0)[v.space[i_]]))),
+            z3.ForAll([x_, y_], z3.Implies(z3.And(0 <= x_, x_ < o.K, x_ != n, 0 <= y_, y_ < o.K), z3.And(
+                v.edge[x_][y_] == o.edge[x_][y_], v.motifs[x_][y_] == o.motifs[x_][y_], v.motif0[x_][y_] == o.motif0[x_][y_]))),
+            z3.ForAll([x_, y_], z3.Implies(z3.And(0 <= x_, x_ < o.K, x_ != n, y_ >= o.K), z3.Not(v.edge[x_][y_]))),
+            v.K >= o.K, v.net == o.net, v.sym == o.sym, v.pn == o.pn,
+            z3.ForAll([i_], z3.Implies(z3.And(0 <= i_, i_ < o.K), v.depth[i_] >= o.depth[i_])))
+
+    def post(c):
+        v, o, n = c.sd, c.old.sd, c.node_id
+        return [
+            ("noop_if_already_expanded", z3.Implies(o.expanded[n], z3.And(
+                v.K == o.K, S.frame_nodes(v, o, fields=NODEF + ("succsig", "depth")), S.frame_edges(v, o), v.index == o.index))),
+            ("becomes_skip_node_with_caches_discarded", z3.Implies(z3.Not(o.expanded[n]), z3.And(
+                v.expanded[n], v.skipped[n], cleared(v, n), v.space[n] == o.space[n]))),
+            ("others", others(v, o, n, c.all_minimal_traps)),
+        ] + [("inv." + nm, g) for nm, g in S.inv(v)]
+
+    def loop(c):
+        v, o, n = c.sd, c.old.sd, c.node_id
+        return [("inv." + nm, g) for nm, g in S.inv(v, exempt=n)] + [
+            ("node_in_progress", z3.And(z3.Not(v.expanded[n]), z3.Not(v.skipped[n]), cleared(v, n), v.space[n] == o.space[n], S.valid(v, n))),
+            ("signature_so_far", v.succsig[n] == S.FoldSigF(N(o), c.all_minimal_traps, o.space[n], c.i)),
+            ("others", others(v, o, n, c.all_minimal_traps)),
+        ]
+
+    names = ["noop_if_already_expanded", "becomes_skip_node_with_caches_discarded", "others"] + ["inv." + x for x in inv_names()]
+    reg.add(Contract(
+        "biobalm._sd_algorithms.expand_minimal_spaces.expand_minimal_spaces.make_skip_node",
+        params=[("sd", SD), ("node_id", TInt), ("all_minimal_traps", LS)],
+        properties=("C14", "C05", "C03"),
+        requires=[lambda c: S.inv_all(c.sd), lambda c: S.valid(c.sd, c.node_id),
+                  lambda c: z3.Implies(z3.Not(c.sd.expanded[c.node_id]), S.EnumInside(N(c.sd), c.all_minimal_traps, c.sd.space[c.node_id])),
+                  # a stub that is itself a minimal trap space is never skipped (it would need an edge to itself)
+                  lambda c: z3.Implies(z3.Not(c.sd.expanded[c.node_id]), z3.Not(T.MinTrapSet(N(c.sd), c.sd.space[c.node_id])[c.sd.space[c.node_id]]))],
+        modifies={"sd": ALLF},
+        ensures=[(nm, (lambda k: (lambda c: dict(post(c))[k]))(nm)) for nm in names],
+        lemmas=[("L3.min_trap_facts(inside)", lambda c: S.enum_inside_facts(N(c.sd), c.all_minimal_traps, c.old.sd.space[c.node_id] if c.old is not None else c.sd.space[c.node_id])),
+                ("def.SkipOK", lambda c: S.skipok_intro_inside(N(c.sd), c.old.sd.space[c.node_id], c.all_minimal_traps, c.sd.succsig[c.node_id]))],
+        loops={0: LoopContract("for m_trap in all_minimal_traps", loop, havoc_heap={"sd": ALLF})},
+        local_types={"skip_edges": TInt},
+    ), nested_in="biobalm._sd_algorithms.expand_minimal_spaces.expand_minimal_spaces")
